@@ -6,6 +6,7 @@ CONSTANTS
   PCaps = {2}
   ACaps = {2}
   MaxBacklog = 1
+  MaxFaults = 1
   MaxParses = 0
   WithSync = TRUE
   FixParentMissing = TRUE
